@@ -13,7 +13,7 @@ from fractions import Fraction
 
 S = Sym
 PROPERTY = 'C08'
-PROPS_MODULES = ['C08', 'C08a', 'C08b', 'C08c', 'C08d']
+PROPS_MODULES = ['C08', 'C08a', 'C08b', 'C08c', 'C08d', 'C08e', 'C08f']
 ASSUMPTIONS = ['exact rational arithmetic (IEEE rounding is not modelled); NaN / arithmetic on infinities are evaluation errors of the original, '
                'so they constrain nothing', 'outputs are compared modulo the order of set-literal members and of flattened and/or chains '
                '(Python set iteration order is arbitrary)']
@@ -76,6 +76,29 @@ def quantifier_family():
             for b in elim:
                 qq = ('quant', q, 'i', d, b)
                 out += [qq, ('un', 'not', qq), ('bin', 'and', Bf, qq), ('bin', 'or', qq, Cf)]
+    return out
+
+
+def aggregate_family():
+    """every aggregate over every range with literal bounds in -3..3 (all four inclusion patterns: empty ranges, ranges that stop
+    just short of zero, ranges around zero) and over sets of literals with negative, zero, repeated and float members"""
+    def lit(k):
+        return int_lit(k) if k >= 0 else ('un', '-', int_lit(-k))
+    out = []
+    ks = range(-3, 4)
+    for f in ('len', 'sum', 'prod', 'max', 'min'):
+        for a in ks:
+            for b in ks:
+                for el in (False, True):
+                    for eh in (False, True):
+                        out.append(('call', f, [('range', lit(a), lit(b), el, eh)]))
+        members = [lit(-2), lit(-1), lit(0), lit(1), lit(3), float_lit(0.5), ('un', '-', float_lit(0.5)), float_lit(1.0), X]
+        for a in members:
+            out.append(('call', f, [('set', [a])]))
+            for b in members:
+                out.append(('call', f, [('set', [a, b])]))
+                out.append(('call', f, [('set', [a, b, lit(-1)])]))
+                out.append(('call', f, [('set', [lit(2), a, b, lit(0)])]))
     return out
 
 
@@ -174,7 +197,7 @@ def run(ctx):
     ep, prp = expression_parser(), predicate_parser()
     genv = grid_envs()
     g1, g2, g3 = small_grammar(rng, 400 if ctx.quick else 4000)
-    forms = g1 + (rng.sample(g2, 2500) if ctx.quick else g2) + g3 + quantifier_family() + conversion_family() + pair_family()
+    forms = g1 + (rng.sample(g2, 2500) if ctx.quick else g2) + g3 + quantifier_family() + conversion_family() + pair_family() + aggregate_family()
     cases = []
     rejects = 0
     for k, r in enumerate(forms):
